@@ -98,8 +98,11 @@ def _config(n, flavour, kind, percentile, rng, weights=None, first_filter=None, 
     elif flavour == "objective2":
         ow = [0.25, 0.0, 0.75]
         cfg["objectives"] = {"weights": ow, "realization_filters": [0, -1, 0]}
-        cfg["realization_filters"] = [{"method": "cvar-objective", "options": {"sort": [0, 2], "percentile": percentile}}]
-        meta = {"ow": ow, "sort": [0, 2]}
+        # (the ranked objectives listed in either order: the key is the same weighted sum)
+        order = [0, 2] if rng.random() < 0.5 else [2, 0]
+        cfg["realization_filters"] = [{"method": ["cvar-objective", "default/cvar-objective", "Default/CVaR-Objective"][int(rng.integers(3))],
+                                       "options": {"sort": order, "percentile": percentile}}]
+        meta = {"ow": ow, "sort": order}
     elif flavour == "objective_neg":
         # a maximised (negatively weighted) objective ranked alone in a multi-objective problem
         ow = [2.0, -1.0]
@@ -168,7 +171,7 @@ def _call(flt, flavour, meta, ranked, failed, rng, obs=None):
         con = None
     elif flavour == "objective2":
         obj = np.empty((n, 3))
-        obj[:, [0, 2]] = ranked
+        obj[:, meta["sort"]] = ranked       # column k of the ranked values is objective sort[k]
         obj[:, 1] = _unranked(rng, n, failed, obs)
         con = None
     else:
